@@ -23,3 +23,9 @@ func reducerBroadcasted(y tensor.Tensor, x tensor.Tensor, dim int) (o tensor.Ten
 
 	return o, nil
 }
+
+func copiedIndex(index []tensor.Range) (cidx []tensor.Range) {
+	cidx = make([]tensor.Range, len(index))
+	copy(cidx, index)
+	return cidx
+}
